@@ -9,20 +9,20 @@ macro "close_tac" : tactic =>
 theorem inv_init (bi bp bm : Nat) : Inv (init bi bp bm) := by
   constructor <;> simp [init]
 
-theorem inv_step {s s' : St} (h : Inv s) (st : Step s s') : Inv s' := by
-  obtain ⟨h1, h2, h3, h6, h4, h5⟩ := h
+theorem inv_step {c : Cfg} {s s' : St} (h : Inv s) (st : Step c s s') : Inv s' := by
+  obtain ⟨h1, h2, h3, h6, h7, h4, h5⟩ := h
   cases st <;> constructor <;> simp_all <;> (try omega) <;> (intro hc; simp_all [pAfterMerge])
 
-theorem inv_reach {s : St} (h : Reach s) : Inv s := by
+theorem inv_reach {c : Cfg} {s : St} (h : Reach c s) : Inv s := by
   induction h with
   | init bi bp bm => exact inv_init bi bp bm
   | step _ st ih => exact inv_step ih st
 
 /-- closeCh is never re-opened, and once it is closed no new API call starts -/
-theorem closed_step {s s' : St} (st : Step s s') (hc : s.closed = true) : s'.closed = true := by
+theorem closed_step {c : Cfg} {s s' : St} (st : Step c s s') (hc : s.closed = true) : s'.closed = true := by
   cases st <;> simp_all
 
-theorem noApi_step {s s' : St} (st : Step s s') (hc : s.closed = true) (hn : NoApi s) : NoApi s' := by
+theorem noApi_step {c : Cfg} {s s' : St} (st : Step c s s') (hc : s.closed = true) (hn : NoApi s) : NoApi s' := by
   obtain ⟨h1, h2, h3⟩ := hn
   cases st <;> simp_all [NoApi]
 
@@ -32,13 +32,14 @@ theorem spend_lt {b : Nat} (h : canDecline true b) : spend true b + 1 = b := by
 
 /-- once closeCh is closed (and no API call is in flight) every step strictly decreases the measure:
 a step either spends fairness budget, or moves a loop towards its next select / to its return -/
-theorem measure_decreases {s s' : St} (st : Step s s') (hc : s.closed = true) (hn : NoApi s) :
+theorem measure_decreases {c : Cfg} {s s' : St} (st : Step c s s') (hc : s.closed = true) (hn : NoApi s) :
     closeMeasure s' < closeMeasure s := by
   obtain ⟨n1, n2, n3⟩ := hn
   cases st with
   | iRecvWatcher w' h1 h2 h3 h4 => rcases h4 with rfl | rfl <;> close_tac
   | iNotifyP q h1 h2 h3 => rcases h3 with rfl | rfl <;> close_tac
-  | pClose h1 h2 => rcases h2 with h | h | h | h | h <;> close_tac
+  | pClose h1 h2 => rcases h2 with h | h | h | h | ⟨h, _⟩ <;> close_tac
+  | pApplied h1 h2 h3 => cases hcw : c.pWaitClose <;> close_tac
   | pWork q h1 h2 => rcases h2 with rfl | rfl | rfl | rfl <;> close_tac
   | mClose h1 h2 => rcases h2 with h | h | h <;> close_tac
   | mPlan q h1 h2 => rcases h2 with rfl | rfl <;> close_tac
@@ -48,8 +49,8 @@ theorem measure_decreases {s s' : St} (st : Step s s') (hc : s.closed = true) (h
 `<-closeCh` case (iClose/pClose/mClose/pPauseDone), or is internal work, or its partner is provably
 waiting (Inv.notifyP / Inv.notifyM: the sender of a merge sits at `<-sm.notifyCh`; Inv.appliedErr: the
 caller of a failed introduction sits at `<-applied`) -/
-theorem progress {s : St} (hi : Inv s) (hc : s.closed = true) (hn : NoApi s) (hd : ¬ AllDone s) :
-    ∃ s', Step s s' := by
+theorem progress (c : Cfg) {s : St} (hi : Inv s) (hc : s.closed = true) (hn : NoApi s) (hd : ¬ AllDone s) :
+    ∃ s', Step c s s' := by
   obtain ⟨n1, n2, n3⟩ := hn
   by_cases h1 : s.i = .done
   · by_cases h2 : s.p = .done
@@ -66,7 +67,12 @@ theorem progress {s : St} (hi : Inv s) (hc : s.closed = true) (hn : NoApi s) (hd
       | sel => exact ⟨_, Step.pClose s hc (Or.inr (Or.inl hp))⟩
       | mSend => exact ⟨_, Step.pClose s hc (Or.inr (Or.inr (Or.inl hp)))⟩
       | pSend => exact ⟨_, Step.pClose s hc (Or.inr (Or.inr (Or.inr (Or.inl hp))))⟩
-      | pWait => exact ⟨_, Step.pClose s hc (Or.inr (Or.inr (Or.inr (Or.inr hp))))⟩
+      | pWait =>
+        by_cases hcl : c.pWaitClose = true
+        · exact ⟨_, Step.pClose s hc (Or.inr (Or.inr (Or.inr (Or.inr ⟨hp, hcl⟩))))⟩
+        · rcases hi.pWaitOwned hp with h | h
+          · rw [h1] at h; cases h
+          · exact ⟨_, Step.pApplied s hp h (fun h' => absurd h' hcl)⟩
       | pause => exact ⟨_, Step.pPauseDone s hp⟩
       | work => exact ⟨_, Step.pWork s .reg hp (Or.inl rfl)⟩
       | post => exact ⟨_, Step.pPostReg s hp⟩
@@ -83,19 +89,19 @@ theorem progress {s : St} (hi : Inv s) (hc : s.closed = true) (hn : NoApi s) (hd
     | done => exact absurd hq h1
 
 /-- a run: an infinite sequence that takes a step whenever one is enabled and stutters only when stuck -/
-def IsRun (run : Nat → St) : Prop :=
-  ∀ n, Step (run n) (run (n + 1)) ∨ ((¬ ∃ t, Step (run n) t) ∧ run (n + 1) = run n)
+def IsRun (c : Cfg) (run : Nat → St) : Prop :=
+  ∀ n, Step c (run n) (run (n + 1)) ∨ ((¬ ∃ t, Step c (run n) t) ∧ run (n + 1) = run n)
 
-theorem terminates_aux : ∀ (k : Nat) (s : St), closeMeasure s = k → Inv s → s.closed = true → NoApi s →
-    ∀ run : Nat → St, run 0 = s → IsRun run → ∃ n, AllDone (run n) := by
+theorem terminates_aux (c : Cfg) : ∀ (k : Nat) (s : St), closeMeasure s = k → Inv s → s.closed = true → NoApi s →
+    ∀ run : Nat → St, run 0 = s → IsRun c run → ∃ n, AllDone (run n) := by
   intro k
   induction k using Nat.strongRecOn with
   | _ k ih =>
     intro s hk hi hc hn run h0 hr
     by_cases hd : AllDone s
     · exact ⟨0, by rw [h0]; exact hd⟩
-    · obtain ⟨t, ht⟩ := progress hi hc hn hd
-      have hstep : Step s (run 1) := by
+    · obtain ⟨t, ht⟩ := progress c hi hc hn hd
+      have hstep : Step c s (run 1) := by
         rcases hr 0 with h | ⟨h, _⟩
         · rw [h0] at h; exact h
         · rw [h0] at h; exact absurd ⟨t, ht⟩ h
